@@ -206,6 +206,8 @@ class Encoder:
                     if ev == 'Spawn':
                         self.outgoing.add(e['peer'])
                     out.append(dict(base, e='Connect', k=k, inc=(ev == 'Accept'), **self.mstate(e)))
+                elif ev == 'AcceptReject':
+                    out.append(dict(base, e='ConnectRefused', k='', **self.mstate(e)))
                 elif ev == 'AcceptDup':
                     out.append(dict(base, e='ConnectDup', k=k, **self.mstate(e)))
                 elif ev in ('Rotate', 'RotateSkip'):
